@@ -1,54 +1,685 @@
+// Harness for C11: arbitrary client bytes never crash, hang or bloat the server; every complete command line gets
+// exactly one tagged completion with the line's tag; the session stays usable or closes after repeated errors; other
+// sessions are unaffected.
+//
+// The gluon server runs in a CHILD PROCESS (this binary re-executed with -child) so that a panic is observable as an
+// exit status. For every byte stream the parent: connects, (optionally logs in), writes the stream, half-closes the
+// connection, reads everything until the server closes, and then checks
+//
+//	U1 the child is alive, U2 the server closed the connection (no hang), U3 the child does not burn CPU afterwards,
+//	U4 resident memory stays under a ceiling, U5 a second, long-lived session still answers NOOP,
+//	U6 never more completions than LF-terminated lines,
+//	L  for line-structured streams: exactly one completion per line, with the line's tag, statuses where the property
+//	   fixes them (BAD for a malformed line), the session closes only after 20 consecutive malformed lines / LOGOUT.
+//
+// cases.v: every stream with the observed list of completions (tag, status) for the ServeLoop model (Run/RunC11.v).
 package main
 
 import (
+	"bytes"
 	"fmt"
+	"io"
 	"net"
 	"os"
+	"regexp"
+	"sort"
+	"strconv"
+	"strings"
 	"time"
 
-	"verifharness/srv"
+	"verifharness/common"
 )
 
-func probe(addr string, pre string, send string) {
-	c, err := net.Dial("tcp", addr)
-	if err != nil {
-		panic(err)
+func main() {
+	if len(os.Args) > 1 && os.Args[1] == "-child" {
+		childMain()
+		return
 	}
-	defer c.Close()
-	buf := make([]byte, 65536)
-	c.SetReadDeadline(time.Now().Add(2 * time.Second))
-	n, _ := c.Read(buf)
-	_ = n
-	if pre != "" {
-		c.Write([]byte(pre))
-		c.SetReadDeadline(time.Now().Add(2 * time.Second))
-		n, _ = c.Read(buf)
-		fmt.Printf("  pre-> %q\n", buf[:n])
-	}
-	c.Write([]byte(send))
-	var out []byte
-	for {
-		c.SetReadDeadline(time.Now().Add(700 * time.Millisecond))
-		n, err := c.Read(buf)
-		out = append(out, buf[:n]...)
-		if err != nil {
-			fmt.Printf("%q => %q (%v)\n", send, out, err)
-			return
-		}
-	}
+	common.Main("C11", runC11)
 }
 
-func main() {
-	s, err := srv.Start(srv.Options{})
-	if err != nil {
-		panic(err)
-	}
-	for _, pre := range []string{"", "x NOOP\r\n"} {
-		for _, in := range os.Args[1:] {
-			var b []byte
-			fmt.Sscanf(in, "%q", &b)
-			probe(s.Addr, pre, string(b))
+const loginLine = "L0 LOGIN user pass\r\n"
+
+type completion struct {
+	Tag    string `json:"tag"`
+	Status string `json:"status"`
+}
+
+type expect struct {
+	Tag    string
+	Status string // "" = any of OK/NO/BAD, otherwise alternatives separated by "|"
+}
+
+type stream struct {
+	Name   string
+	Login  bool
+	Data   []byte
+	Expect []expect // nil: no line oracle
+	Lined  bool     // Expect is meaningful (may be empty)
+	First  string   // weaker oracle: tag of the first completion after the login (used for the literal-size cases)
+	NoTags bool     // do not judge completions at all (raw TLS hello: the server closes by design)
+	Model  bool
+}
+
+type outcome struct {
+	Completions []completion
+	Raw         []byte
+	Closed      bool // server closed the connection
+	Crash       bool
+	Spin        bool
+	Hang        bool
+	ConnErr     string
+}
+
+var reCompletion = regexp.MustCompile(`^([^ ]*) (OK|NO|BAD)( .*)?$`)
+var reLit = regexp.MustCompile(`\{(\d+)\}$`)
+
+// parseResponses splits the server output into lines (honouring literals) and extracts the completion results.
+func parseResponses(raw []byte) []completion {
+	var out []completion
+	i := 0
+	for i < len(raw) {
+		j := bytes.Index(raw[i:], []byte("\r\n"))
+		if j < 0 {
+			break
+		}
+		line := raw[i : i+j]
+		i += j + 2
+		if m := reLit.FindSubmatch(line); m != nil && (bytes.HasPrefix(line, []byte("* ")) || bytes.HasPrefix(line, []byte("+ "))) {
+			if n, err := strconv.Atoi(string(m[1])); err == nil && i+n <= len(raw) {
+				i += n
+				continue // the rest of this response follows the literal; it cannot be a completion
+			}
+		}
+		if bytes.HasPrefix(line, []byte("* ")) || bytes.HasPrefix(line, []byte("+ ")) || bytes.Equal(line, []byte("+")) {
+			continue
+		}
+		if m := reCompletion.FindSubmatch(line); m != nil {
+			out = append(out, completion{Tag: string(m[1]), Status: string(m[2])})
 		}
 	}
-	os.Exit(0)
+	return out
+}
+
+// runStream sends the bytes and collects the output until the server closes the connection.
+func runStream(c *child, login bool, data []byte) outcome {
+	var o outcome
+	conn, err := net.DialTimeout("tcp", c.addr, 10*time.Second)
+	if err != nil {
+		o.ConnErr = err.Error()
+		if c.waitDead(2 * time.Second) {
+			o.Crash = true
+		}
+		return o
+	}
+	defer conn.Close()
+	tcp := conn.(*net.TCPConn)
+	payload := data
+	if login {
+		payload = append([]byte(loginLine), data...)
+	}
+	wdone := make(chan error, 1)
+	go func() {
+		tcp.SetWriteDeadline(time.Now().Add(60 * time.Second))
+		_, err := tcp.Write(payload)
+		tcp.CloseWrite()
+		wdone <- err
+	}()
+	rdone := make(chan struct{})
+	var raw []byte
+	go func() {
+		buf := make([]byte, 65536)
+		for {
+			n, err := tcp.Read(buf)
+			raw = append(raw, buf[:n]...)
+			if err != nil {
+				close(rdone)
+				return
+			}
+		}
+	}()
+	// U2: the server must close after our half-close. A spinning parser is detected early by its CPU use.
+	waited := 0 * time.Second
+	closed := false
+	for !closed {
+		select {
+		case <-rdone:
+			closed = true
+		case <-time.After(3 * time.Second):
+			waited += 3 * time.Second
+			if !c.alive() {
+				tcp.SetReadDeadline(time.Now())
+				<-rdone
+				closed = true
+				break
+			}
+			if c.busy(700*time.Millisecond) && c.busy(700*time.Millisecond) {
+				o.Spin = true
+			} else if waited >= 45*time.Second {
+				o.Hang = true
+			}
+			if o.Spin || o.Hang {
+				tcp.SetReadDeadline(time.Now())
+				<-rdone
+				closed = true
+			}
+		}
+	}
+	o.Closed = !o.Spin && !o.Hang
+	// strip the greeting
+	if i := bytes.Index(raw, []byte("\r\n")); i >= 0 && bytes.HasPrefix(raw, []byte("* OK")) {
+		raw = raw[i+2:]
+	}
+	o.Raw = raw
+	o.Completions = parseResponses(raw)
+	if !c.alive() {
+		o.Crash = true
+	}
+	return o
+}
+
+func countLF(b []byte) int { return bytes.Count(b, []byte("\n")) }
+
+// STARTTLS is answered by the command reader goroutine itself, concurrently with the serve loop that may still be
+// working on the previous command: its completion can overtake earlier ones. The order is deterministic only when
+// STARTTLS is the very first line of the connection.
+func racyStartTLS(s stream) bool {
+	low := bytes.ToLower(s.Data)
+	i := bytes.Index(low, []byte("starttls"))
+	if i < 0 {
+		return false
+	}
+	first := bytes.IndexByte(low, '\n')
+	return s.Login || bytes.Count(low, []byte("starttls")) > 1 || (first >= 0 && i > first)
+}
+
+func sortedComps(cs []completion) []completion {
+	out := append([]completion{}, cs...)
+	sort.Slice(out, func(i, j int) bool {
+		if out[i].Tag != out[j].Tag {
+			return out[i].Tag < out[j].Tag
+		}
+		return out[i].Status < out[j].Status
+	})
+	return out
+}
+
+func compStr(cs []completion) string {
+	p := make([]string, len(cs))
+	for i, c := range cs {
+		p[i] = fmt.Sprintf("%q %s", c.Tag, c.Status)
+	}
+	return "[" + strings.Join(p, ", ") + "]"
+}
+
+func statusOK(want, got string) bool {
+	if want == "" {
+		return true
+	}
+	for _, w := range strings.Split(want, "|") {
+		if w == got {
+			return true
+		}
+	}
+	return false
+}
+
+// judge returns "" or a description of the violated clause (kind first).
+func judge(s stream, o outcome) (string, string) {
+	switch {
+	case o.Crash:
+		return "CRASH", "the server process died"
+	case o.Spin:
+		return "SPIN", "connection not closed after the client's half-close and the server keeps a CPU busy"
+	case o.Hang:
+		return "HANG", "connection not closed 45 s after the client's half-close"
+	case o.ConnErr != "":
+		return "CONNECT", o.ConnErr
+	}
+	cs := o.Completions
+	if racyStartTLS(s) {
+		// order-insensitive comparison: bring the login first, sort the rest and the expectation alike
+		var l0, rest []completion
+		for _, x := range cs {
+			if s.Login && x.Tag == "L0" && len(l0) == 0 {
+				l0 = append(l0, x)
+			} else {
+				rest = append(rest, x)
+			}
+		}
+		cs = append(l0, sortedComps(rest)...)
+		exp := append([]expect{}, s.Expect...)
+		sort.Slice(exp, func(i, j int) bool { return exp[i].Tag < exp[j].Tag })
+		s.Expect = exp
+	}
+	if s.Login {
+		if len(cs) == 0 || cs[0].Tag != "L0" || cs[0].Status != "OK" {
+			return "LOGIN", "the login that precedes the stream was not answered OK: " + compStr(cs)
+		}
+		cs = cs[1:]
+	}
+	if s.NoTags {
+		return "", ""
+	}
+	if n := countLF(s.Data); len(cs) > n {
+		return "EXTRA-COMPLETIONS", fmt.Sprintf("%d completions for %d line ends: %s", len(cs), n, compStr(cs))
+	}
+	if s.First != "" {
+		if len(cs) == 0 || cs[0].Tag != s.First {
+			return "COMPLETION", fmt.Sprintf("first completion must carry tag %q, got %s", s.First, compStr(cs))
+		}
+	}
+	if s.Lined {
+		if len(cs) != len(s.Expect) {
+			var w []string
+			for _, e := range s.Expect {
+				w = append(w, fmt.Sprintf("%q %s", e.Tag, e.Status))
+			}
+			return "COMPLETION", fmt.Sprintf("want %d completions [%s], got %s", len(s.Expect), strings.Join(w, ", "), compStr(cs))
+		}
+		for i, e := range s.Expect {
+			if cs[i].Tag != e.Tag {
+				return "COMPLETION", fmt.Sprintf("completion %d: want tag %q, got %q %s (all: %s)", i+1, e.Tag, cs[i].Tag, cs[i].Status, compStr(cs))
+			}
+			if !statusOK(e.Status, cs[i].Status) {
+				return "COMPLETION", fmt.Sprintf("completion %d (tag %q): want %s, got %s", i+1, e.Tag, e.Status, cs[i].Status)
+			}
+		}
+	}
+	return "", ""
+}
+
+type caseRec struct {
+	Name   string `json:"name"`
+	Login  bool   `json:"login"`
+	Stream string `json:"stream"`
+	Got    string `json:"got"`
+}
+
+func clip(b []byte, n int) string {
+	if len(b) <= n {
+		return fmt.Sprintf("%q", b)
+	}
+	return fmt.Sprintf("%q...(%d bytes)", b[:n], len(b))
+}
+
+func runC11(ctx *common.Ctx) error {
+	res := ctx.Res
+	rng := ctx.Rng
+	res.Rule = "byte streams sent to a server in a child process, before and after LOGIN: scripted defect shapes, every truncation point of valid commands, oversized numbers/literals, deep nesting (<= 64 KiB), EOF inside token/quoted/literal, binary garbage, raw TLS hello, random streams of valid and malformed lines (incl. >= 20 consecutive malformed); non-trivial = distinct streams that contain at least one malformed or incomplete command"
+	c, err := startChild()
+	if err != nil {
+		return err
+	}
+	defer func() {
+		if c != nil {
+			c.stop()
+		}
+	}()
+	var watcher net.Conn
+	openWatcher := func() error {
+		w, err := net.DialTimeout("tcp", c.addr, 10*time.Second)
+		if err != nil {
+			return err
+		}
+		w.SetDeadline(time.Now().Add(20 * time.Second))
+		buf := make([]byte, 4096)
+		if _, err := w.Read(buf); err != nil {
+			return err
+		}
+		w.Write([]byte("W0 LOGIN user pass\r\n"))
+		acc := []byte{}
+		for !bytes.Contains(acc, []byte("W0 OK")) {
+			n, err := w.Read(buf)
+			if err != nil {
+				return fmt.Errorf("watcher login: %v %q", err, acc)
+			}
+			acc = append(acc, buf[:n]...)
+		}
+		watcher = w
+		return nil
+	}
+	if err := openWatcher(); err != nil {
+		return err
+	}
+	wn := 0
+	// U5: the long-lived second session answers NOOP
+	watcherOK := func() string {
+		wn++
+		tag := fmt.Sprintf("W%d", wn)
+		watcher.SetDeadline(time.Now().Add(30 * time.Second))
+		if _, err := watcher.Write([]byte(tag + " NOOP\r\n")); err != nil {
+			return "write: " + err.Error()
+		}
+		acc := []byte{}
+		buf := make([]byte, 4096)
+		for !bytes.Contains(acc, []byte(tag+" OK")) {
+			n, err := watcher.Read(buf)
+			if err != nil {
+				return fmt.Sprintf("read: %v after %q", err, acc)
+			}
+			acc = append(acc, buf[:n]...)
+		}
+		return ""
+	}
+	restart := func() error {
+		if watcher != nil {
+			watcher.Close()
+		}
+		if c.alive() {
+			c.kill()
+		}
+		nc, err := startChild()
+		if err != nil {
+			c = nil
+			return err
+		}
+		c = nc
+		return openWatcher()
+	}
+
+	baseRSS := c.rssKiB()
+	const rssCeilKiB = 700 * 1024 // growth allowed over the idle server (a 30 MiB literal buffer may be live)
+	var lines []string
+	nextID := 0
+	severe := 0
+	var batch []stream
+
+	emit := func(s stream, o outcome) {
+		if !s.Model || o.Crash || o.Spin || o.Hang || o.ConnErr != "" || racyStartTLS(s) {
+			return
+		}
+		data := s.Data
+		if s.Login {
+			data = append([]byte(loginLine), data...)
+		}
+		if len(data) > 20000 {
+			return
+		}
+		nextID++
+		obs := make([]string, len(o.Completions))
+		for i, cp := range o.Completions {
+			st := map[string]int{"BAD": 0, "NO": 1, "OK": 2}[cp.Status]
+			obs[i] = fmt.Sprintf("(%s, %d)", common.CoqHex([]byte(cp.Tag)), st)
+		}
+		lines = append(lines, fmt.Sprintf("mkCase %d %s [%s]", nextID, common.CoqHex(data), strings.Join(obs, "; ")))
+	}
+
+	var one func(s stream, shrinkable bool) (string, outcome)
+	one = func(s stream, shrinkable bool) (string, outcome) {
+		pre := "pre-login"
+		if s.Login {
+			pre = "post-login"
+		}
+		ctx.Current(fmt.Sprintf("%s %s stream=%s", s.Name, pre, clip(s.Data, 300)), nil)
+		o := runStream(c, s.Login, s.Data)
+		kind, detail := judge(s, o)
+		if !o.Crash && !o.Spin && !o.Hang {
+			// U5 (and the way a crash that happened a moment ago becomes visible): always probe the second session
+			if msg := watcherOK(); msg != "" {
+				if c.waitDead(2 * time.Second) {
+					kind, detail = "CRASH", "the server process died"
+					o.Crash = true
+				} else if kind == "" {
+					kind, detail = "OTHER-SESSION", "a second session no longer answers NOOP: "+msg
+				}
+			}
+		}
+		if kind == "" {
+			if rss := c.rssKiB(); rss > 0 && baseRSS > 0 && rss-baseRSS > rssCeilKiB {
+				kind, detail = "BLOAT", fmt.Sprintf("resident memory grew from %d KiB to %d KiB", baseRSS, rss)
+			}
+		}
+		if kind == "CRASH" {
+			detail += "\n" + c.stderr.crashHead()
+		}
+		if kind == "CRASH" || kind == "SPIN" || kind == "HANG" || kind == "BLOAT" || kind == "OTHER-SESSION" || kind == "CONNECT" {
+			if err := restart(); err != nil {
+				res.Infra("restart of the child failed: %v", err)
+			}
+			baseRSS = c.rssKiB()
+		}
+		return kind + "\x00" + detail, o
+	}
+
+	// shrink by dropping lines while the same kind of failure reproduces (bounded effort)
+	shrink := func(s stream, kind string) stream {
+		best := s
+		tries := 0
+		for changed := true; changed && tries < 24; {
+			changed = false
+			parts := bytes.SplitAfter(best.Data, []byte("\n"))
+			if len(parts) <= 1 {
+				break
+			}
+			for i := range parts {
+				if tries >= 24 {
+					break
+				}
+				tries++
+				cand := best
+				cand.Data = bytes.Join(append(append([][]byte{}, parts[:i]...), parts[i+1:]...), nil)
+				cand.Lined, cand.Expect, cand.First = false, nil, ""
+				if kind == "COMPLETION" || kind == "EXTRA-COMPLETIONS" || kind == "LOGIN" {
+					break
+				}
+				r, _ := one(cand, false)
+				if strings.HasPrefix(r, kind+"\x00") {
+					best = cand
+					changed = true
+					break
+				}
+			}
+		}
+		return best
+	}
+
+	run := func(s stream) {
+		if severe >= 8 && !strings.HasPrefix(s.Name, "script") {
+			res.Count("skipped-after-many-severe-failures")
+			return
+		}
+		res.Evaluations++
+		res.Count("category:" + strings.SplitN(s.Name, ":", 2)[0])
+		if s.Login {
+			res.Count("phase:post-login")
+		} else {
+			res.Count("phase:pre-login")
+		}
+		r, o := one(s, true)
+		kd := strings.SplitN(r, "\x00", 2)
+		kind, detail := kd[0], kd[1]
+		pre := "pre-login"
+		if s.Login {
+			pre = "post-login"
+		}
+		if kind != "" {
+			if kind == "CRASH" || kind == "SPIN" || kind == "HANG" || kind == "BLOAT" {
+				severe++
+				s = shrink(s, kind)
+			}
+			res.Fail(fmt.Sprintf("%s %s stream=%s", kind, pre, clip(s.Data, 400)), detail+"\nstream "+s.Name+"\nobserved completions: "+compStr(o.Completions), caseRec{Name: s.Name, Login: s.Login, Stream: fmt.Sprintf("%q", s.Data), Got: compStr(o.Completions)})
+		} else {
+			emit(s, o)
+			batch = append(batch, s)
+		}
+		if !strings.HasPrefix(s.Name, "valid") {
+			res.Nontrivial(pre + " " + string(s.Data))
+		}
+		res.Sample(caseRec{Name: s.Name, Login: s.Login, Stream: clip(s.Data, 200), Got: compStr(o.Completions)})
+		// U3 for goroutines that outlive their connection: sampled per batch, attributed by replay
+		if len(batch) >= 40 {
+			if c.busy(250*time.Millisecond) && c.busy(time.Second) {
+				culprit := "(not reproduced individually)"
+				old := batch
+				batch = nil
+				if err := restart(); err == nil {
+					for _, b := range old {
+						runStream(c, b.Login, b.Data)
+						if c.busy(400*time.Millisecond) && c.busy(time.Second) {
+							culprit = fmt.Sprintf("%s stream=%s", map[bool]string{false: "pre-login", true: "post-login"}[b.Login], clip(b.Data, 400))
+							restart()
+							break
+						}
+					}
+				}
+				res.Fail("SPIN-AFTER-CLOSE "+culprit, "the server keeps a CPU busy although every connection has been closed", nil)
+				severe++
+			}
+			batch = nil
+		}
+	}
+
+	both := func(name string, data []byte, f func(s *stream)) {
+		for _, login := range []bool{false, true} {
+			s := stream{Name: name, Login: login, Data: data, Model: true}
+			if f != nil {
+				f(&s)
+			}
+			run(s)
+		}
+	}
+	lined := func(exp ...expect) func(*stream) {
+		return func(s *stream) { s.Lined = true; s.Expect = exp }
+	}
+	e := func(tag, status string) expect { return expect{Tag: tag, Status: status} }
+
+	// ---------------------------------------------------------------- 1. scripted shapes
+	msg := "Date: Mon, 01 Jan 2024 10:00:00 +0000\r\nFrom: a@example.com\r\nTo: b@example.com\r\nSubject: x\r\n\r\n0123456789\r\n"
+	both("script:first-line-empty", []byte("\r\nb NOOP\r\n"), func(s *stream) {
+		s.Lined = true
+		s.Expect = []expect{e("", "BAD"), e("b", "OK")}
+	})
+	both("script:trailing-garbage-keeps-tag", []byte("a NOOP x\r\nb NOOP\r\n"), lined(e("a", "BAD"), e("b", "OK")))
+	both("script:tag-only", []byte("a\r\nb \r\nc NOOP\r\n"), lined(e("a", "BAD"), e("b", "BAD"), e("c", "OK")))
+	both("script:untagged-lines", []byte(" NOOP\r\n(x) NOOP\r\n\"q\" NOOP\r\nc NOOP\r\n"), lined(e("", "BAD"), e("", "BAD"), e("", "BAD"), e("c", "OK")))
+	both("script:eof-in-quoted", []byte("a LOGIN \"x"), lined())
+	both("script:eof-after-backslash", []byte("a LOGIN \"x\\"), lined())
+	both("script:eof-in-quoted-2", []byte("b NOOP\r\na LIST \"\" \"ab"), lined(e("b", "OK")))
+	both("script:quoted-does-not-span-lines", []byte("a LOGIN \"x\r\ny\" z\r\nb NOOP\r\n"), lined(e("a", "BAD"), e("y", "BAD"), e("b", "OK")))
+	both("script:literal-oversized", []byte("a LOGIN {99999999999}\r\nb NOOP\r\n"), lined(e("a", "BAD"), e("b", "OK")))
+	both("script:literal-at-cap", []byte("a LOGIN {31457280}\r\nb NOOP\r\n"), lined(e("a", "BAD"), e("b", "OK")))
+	both("script:literal-huge-number", []byte("a LOGIN {18446744073709551615}\r\nb NOOP\r\n"), lined(e("a", "BAD"), e("b", "OK")))
+	both("script:literal-zero", []byte("a CREATE {0}\r\nb NOOP\r\n"), func(s *stream) { s.First = "a" })
+	both("script:literal-below-cap-then-eof", []byte("a LOGIN {31457279}\r\nxy"), lined())
+	both("script:eof-in-literal", []byte("a LOGIN {5}\r\nus"), lined())
+	both("script:eof-in-literal-header", []byte("a LOGIN {5"), lined())
+	both("script:eof-in-token", []byte("a LOG"), lined())
+	both("script:eof-after-tag", []byte("a"), lined())
+	both("script:eof-before-lf", []byte("a NOOP\r"), lined())
+	both("script:empty-stream", []byte(""), lined())
+	both("script:starttls-unavailable", []byte("a STARTTLS\r\nb NOOP\r\n"), lined(e("a", "NO|BAD"), e("b", "OK")))
+	both("script:logout", []byte("a LOGOUT\r\nb NOOP\r\n"), lined(e("a", "OK")))
+	both("script:done-outside-idle", []byte("DONE\r\nb NOOP\r\n"), lined(e("", "NO|BAD"), e("b", "OK")))
+	both("script:number-overflow", []byte("a FETCH 9223372036854775808 ALL\r\nb FETCH 1 BODY[]<1.18446744073709551617>\r\nc SEARCH LARGER 99999999999999999999\r\nd NOOP\r\n"),
+		lined(e("a", "BAD"), e("b", "BAD"), e("c", "BAD"), e("d", "OK")))
+	both("script:tls-hello", append([]byte{0x16, 0x03, 0x01, 0x02, 0x00, 0x01, 0x00, 0x01, 0xfc, 0x03, 0x03}, []byte("random\r\nb NOOP\r\n")...), func(s *stream) { s.NoTags = true })
+	{
+		var twenty, nineteen bytes.Buffer
+		var exp20, exp19 []expect
+		for i := 0; i < 20; i++ {
+			fmt.Fprintf(&twenty, "e%d XYZZY\r\n", i)
+			exp20 = append(exp20, e(fmt.Sprintf("e%d", i), "BAD"))
+		}
+		twenty.WriteString("z NOOP\r\n")
+		for r := 0; r < 2; r++ {
+			for i := 0; i < 19; i++ {
+				fmt.Fprintf(&nineteen, "f%d_%d XYZZY\r\n", r, i)
+				exp19 = append(exp19, e(fmt.Sprintf("f%d_%d", r, i), "BAD"))
+			}
+			fmt.Fprintf(&nineteen, "g%d NOOP\r\n", r)
+			exp19 = append(exp19, e(fmt.Sprintf("g%d", r), "OK"))
+		}
+		both("script:twenty-errors-close", twenty.Bytes(), lined(exp20...))
+		both("script:nineteen-errors-stay", nineteen.Bytes(), lined(exp19...))
+	}
+	// IDLE (only meaningful after login; before login it is refused)
+	run(stream{Name: "script:idle-done", Login: true, Model: true, Data: []byte("b IDLE\r\nDONE\r\nc NOOP\r\n"), Lined: true, Expect: []expect{e("b", "OK"), e("c", "OK")}})
+	run(stream{Name: "script:idle-other-command", Login: true, Model: true, Data: []byte("b IDLE\r\nc NOOP\r\nd NOOP\r\n"), Lined: true, Expect: []expect{e("b", "BAD"), e("d", "OK")}})
+	run(stream{Name: "script:idle-garbage", Login: true, Model: true, Data: []byte("b IDLE\r\nc FOO (\r\nd NOOP\r\n"), Lined: true, Expect: []expect{e("b", "NO|BAD"), e("d", "OK")}})
+	run(stream{Name: "script:idle-eof", Login: true, Model: true, Data: []byte("b IDLE\r\n"), Lined: true, Expect: nil})
+	run(stream{Name: "script:idle-unauthenticated", Login: false, Model: true, Data: []byte("b IDLE\r\nc NOOP\r\n"), Lined: true, Expect: []expect{e("b", "NO|BAD"), e("c", "OK")}})
+	// the partial-fetch overflow (needs a message)
+	run(stream{Name: "script:partial-overflow", Login: true, Model: true, Lined: true,
+		Data:   []byte(fmt.Sprintf("a APPEND INBOX {%d}\r\n%s\r\nb SELECT INBOX\r\nc FETCH 1 BODY[]<1.9223372036854775807>\r\nd FETCH 1 BODY[TEXT]<9223372036854775807.9223372036854775807>\r\ne UID FETCH 1:* (BODY.PEEK[HEADER]<5.4294967295>)\r\nf NOOP\r\n", len(msg), msg)),
+		Expect: []expect{e("a", "OK"), e("b", "OK"), e("c", "OK"), e("d", "OK"), e("e", "OK"), e("f", "OK")}})
+	// deep nesting, long tokens (<= 64 KiB)
+	deep := func(n int) []byte {
+		return []byte("a SEARCH " + strings.Repeat("(", n) + "ALL" + strings.Repeat(")", n) + "\r\nb NOOP\r\n")
+	}
+	// small variants go to the model as well, the large ones (<= 64 KiB) are judged by the oracles only
+	for _, big := range []bool{false, true} {
+		nest, reps := 600, 500
+		if big {
+			nest, reps = ctx.Budget(8000, 30000), ctx.Budget(8000, 15000)
+		}
+		big := big
+		sz := map[bool]string{false: "", true: "-large"}[big]
+		mk := func(exp ...expect) func(*stream) {
+			return func(s *stream) { s.Lined = true; s.Expect = exp; s.Model = !big }
+		}
+		both("script:deep-search-list"+sz, deep(nest), mk(e("a", ""), e("b", "OK")))
+		both("script:deep-search-unbalanced"+sz, []byte("a SEARCH "+strings.Repeat("(", nest)+"\r\nb NOOP\r\n"), mk(e("a", "BAD"), e("b", "OK")))
+		both("script:deep-search-not"+sz, []byte("a SEARCH "+strings.Repeat("NOT ", nest)+"ALL\r\nb NOOP\r\n"), mk(e("a", ""), e("b", "OK")))
+		both("script:deep-search-or"+sz, []byte("a SEARCH "+strings.Repeat("OR ALL ", reps)+"ALL\r\nb NOOP\r\n"), mk(e("a", ""), e("b", "OK")))
+		both("script:long-section-part"+sz, []byte("a FETCH 1 BODY["+strings.Repeat("1.", reps)+"1]\r\nb NOOP\r\n"), mk(e("a", ""), e("b", "OK")))
+		both("script:long-seqset"+sz, []byte("a FETCH "+strings.Repeat("1:2,", reps)+"3 ALL\r\nb NOOP\r\n"), mk(e("a", ""), e("b", "OK")))
+		both("script:long-flag-list"+sz, []byte("a STORE 1 FLAGS ("+strings.Repeat("f ", reps)+"f)\r\nb NOOP\r\n"), mk(e("a", ""), e("b", "OK")))
+		both("script:id-many-params"+sz, []byte("a ID ("+strings.Repeat("\"k\" \"v\" ", reps/2)+"\"k\" NIL)\r\nb NOOP\r\n"), mk(e("a", ""), e("b", "OK")))
+	}
+	both("script:long-number", []byte("a FETCH "+strings.Repeat("9", 20000)+" ALL\r\nb NOOP\r\n"), func(s *stream) { s.Lined = true; s.Expect = []expect{e("a", "BAD"), e("b", "OK")}; s.Model = false })
+	both("script:long-atom", []byte("a LOGIN "+strings.Repeat("x", 60000)+" y\r\nb NOOP\r\n"), func(s *stream) { s.Lined = true; s.Expect = []expect{e("a", ""), e("b", "OK")}; s.Model = false })
+	both("script:long-quoted", []byte("a LOGIN \""+strings.Repeat("\\\"", 30000)+"\" y\r\nb NOOP\r\n"), func(s *stream) { s.Lined = true; s.Expect = []expect{e("a", ""), e("b", "OK")}; s.Model = false })
+	both("script:long-tag", []byte(strings.Repeat("t", 60000)+" NOOP\r\nb NOOP\r\n"), func(s *stream) { s.Lined = true; s.Expect = []expect{e(strings.Repeat("t", 60000), "OK"), e("b", "OK")}; s.Model = false })
+
+	// ---------------------------------------------------------------- 2. truncations of valid commands at every byte
+	valid := []string{
+		"a LOGIN \"us\\\"er\" {4}\r\npass\r\n",
+		"a FETCH 1:*,3 (UID BODY.PEEK[1.2.HEADER.FIELDS.NOT (To {4}\r\nFrom)]<0.10> RFC822.SIZE)\r\n",
+		"a UID SEARCH CHARSET utf-8 OR (NOT SEEN 1:3) SINCE \"1-Feb-2020\" CC \"x y\"\r\n",
+		"a APPEND \"box\" (\\Seen foo) \" 1-Jan-2020 10:11:12 -0130\" {5}\r\nabcde\r\n",
+		"a STORE 1,2:* +FLAGS.SILENT (\\Seen foo)\r\n",
+		"a ID (\"name\" \"x\" \"os\" NIL)\r\n",
+		"a STATUS \"in box\" (MESSAGES UNSEEN)\r\n",
+		"a LIST \"\" \"%\"\r\n",
+	}
+	nTrunc := ctx.Budget(len(valid), len(valid))
+	for vi := 0; vi < nTrunc; vi++ {
+		v := valid[(vi+int(ctx.Seed))%len(valid)]
+		for cut := 1; cut < len(v); cut++ {
+			login := (cut+vi)%2 == 0
+			if ctx.Tier == "thorough" {
+				run(stream{Name: "truncated:" + strconv.Itoa(vi), Login: !login, Data: []byte(v[:cut]), Lined: true, Model: true})
+			}
+			run(stream{Name: "truncated:" + strconv.Itoa(vi), Login: login, Data: []byte(v[:cut]), Lined: true, Model: true})
+		}
+	}
+	for _, v := range valid { // the complete commands, followed by a NOOP
+		both("valid:complete", []byte(v+"z NOOP\r\n"), lined(e("a", ""), e("z", "OK")))
+	}
+
+	// ---------------------------------------------------------------- 3. random line streams (with the line oracle)
+	nLines := ctx.Budget(200, 2000)
+	for i := 0; i < nLines; i++ {
+		login := rng.Chance(0.5)
+		data, exp := genLines(rng, login)
+		run(stream{Name: "lines:random", Login: login, Data: data, Lined: true, Expect: exp, Model: true})
+	}
+
+	// ---------------------------------------------------------------- 4. garbage (universal oracles + model)
+	nGarb := ctx.Budget(200, 2000)
+	for i := 0; i < nGarb; i++ {
+		login := rng.Chance(0.5)
+		run(stream{Name: "garbage:random", Login: login, Data: genGarbage(rng), Model: true})
+	}
+	// final check for goroutines that spin after their connection is gone
+	if c != nil && c.alive() && c.busy(300*time.Millisecond) && c.busy(time.Second) {
+		res.Fail("SPIN-AFTER-CLOSE (end of run)", "the server keeps a CPU busy although every connection has been closed", nil)
+	}
+	if watcher != nil {
+		watcher.Close()
+	}
+	res.ModelCases = len(lines)
+	_ = io.EOF
+	return common.WriteCases(ctx.Out, "Run.RunC11", "case", lines, "")
 }
